@@ -45,7 +45,7 @@ int main(int argc, char** argv)
         catch (const jsoncons::json_exception&) {} catch (const std::exception& e) { if (!bad) first = std::string("foreign exception for an unterminated quoted field: ") + e.what(); ++bad; } }
     // sub-fields with ignore_empty_values (F51): the events of every mapping are balanced and every value in an object has its name - judged from the event stream of the cursor,
     // and decode_csv delivers a value (ASan decides about the column filter of m_columns)
-    for (const char* text : {"a\n;\n", "a,b\n1,;\n", "a,b\n1;2,;\n", "a,b\n;,1\n", "a\n1;", "a\n1;\"\"\n", "a\n\"\";\n", "a,b,c\n1;6,;,5\n6,", "a\n1;\r\n2\n"}) for (int mk = 0; mk < 3; ++mk) for (int iev = 0; iev < 2; ++iev) { ++total;
+    for (const char* text : {"a\n;\n", "a,b\n1,;\n", "a,b\n1;2,;\n", "a,b\n;,1\n", "a\n1;", "a\n1;\"\"\n", "a\n\"\";\n", "a,b,c\n1;6,;,5\n6,", "a\n1;\r\n2\n", "a,b\n1;2,3;4\n5,6\n", "a,b\n\"1\";\"2\",\"3\"\n", "a,b\n1;2;3,4"}) for (int mk = 0; mk < 3; ++mk) for (int iev = 0; iev < 2; ++iev) { ++total;
         auto o = csv::csv_options{}.assume_header(true).ignore_empty_values(iev != 0).subfield_delimiter(';').mapping_kind(mk == 0 ? csv::csv_mapping_kind::n_rows : mk == 1 ? csv::csv_mapping_kind::n_objects : csv::csv_mapping_kind::m_columns);
         std::string doc(text);
         try { std::vector<char> st; bool ok = true, pending_key = false; std::string why;
